@@ -236,10 +236,15 @@ type received struct {
 
 var recorder []received
 
+// every source instance the registry was asked for, in order; an instance the executor has replaced is dead and must
+// never be handed a message again
+var srcInstances []*srcT
+
 type party struct {
 	fbcontext.ContextAware
 	label int64
 	fail  bool
+	dead  bool
 }
 
 func (p *party) setup(params map[string]string) error {
@@ -263,6 +268,10 @@ func (p *party) Receive(msg fbcontext.Message) error {
 	cp := msg
 	if msg.Payload != nil {
 		cp.Payload = append([]byte{}, msg.Payload...)
+	}
+	if p.dead {
+		recorder = append(recorder, received{-99, cp}) // a replaced instance: never expected
+		return nil
 	}
 	recorder = append(recorder, received{p.label, cp})
 	if p.fail {
@@ -377,7 +386,17 @@ func runRoute(in sx.Tree) sx.Tree {
 		panic(err)
 	}
 	out := []sx.Tree{}
-	for _, m := range in.At(3).Kids {
+	for mi, m := range in.At(3).Kids {
+		if in.Len() >= 5 {
+			for _, ri := range in.At(4).Kids {
+				if ri.Int() == int64(mi) {
+					for _, s := range srcInstances {
+						s.dead = true
+					}
+					ex.PrepareSourceV()
+				}
+			}
+		}
 		recorder = nil
 		msg := message.Message{MessageType: string(m.At(0).ByteSlice()), Key: string(m.At(1).ByteSlice()), Payload: m.At(2).ByteSlice()}
 		errs := ex.DeliverMessageV(msg)
